@@ -139,6 +139,10 @@ def build(vc, case, carriers, variant):
                 del deps[names[-1]]
             elif p == "UnknownName":
                 deps["bogus"] = vc.DependenceFunction(_const)
+            elif p == "EntryNone":            # the entry is there but None: the parameter is neither fixed nor dependent
+                deps[names[-1]] = None
+            elif p == "EntryNumber":          # a plain number is not a dependence function
+                deps[names[0]] = 2.0
             elif p == "DepUnknownParam":      # 'd' is not a parameter of _const(x, a): the coupling would be dropped
                 deps[names[0]] = vc.DependenceFunction(_const, d=vc.DependenceFunction(_const))
             elif p == "DepMisspeltOption":    # 'bound' instead of 'bounds'
@@ -456,6 +460,7 @@ def run(ctx):
     ctx.model_check("Validation", "MC_Validation_mut_fitkey.cfg", expect_violation="RejectedNotComputed", workers=4)
     ctx.model_check("Validation", "MC_Validation_mut_object.cfg", expect_violation="RejectedNotComputed", workers=4)
     ctx.model_check("Validation", "MC_Validation_mut_none.cfg", expect_violation="RejectedNotComputed", workers=4)
+    ctx.model_check("Validation", "MC_Validation_mut_entry.cfg", expect_violation="RejectedNotComputed", workers=4)
     # ---- R
     cases = ctx.generate("Validation", ctx.pick("Gen_Validation_quick.cfg", "Gen_Validation_thorough.cfg"))
     cases.sort(key=case_key)
